@@ -1,6 +1,7 @@
 package main
 
 import (
+	stdx509 "crypto/x509"
 	"fmt"
 	"net"
 	"strings"
@@ -166,6 +167,81 @@ func init() {
 						extPerms++
 						compare("extensions", cc.File, base, statusVector(c2), map[string]interface{}{"file": cc.File, "der_permuted": hexs(der2)})
 					}
+				}
+			}
+		}
+		// ---- the fourteen name-scanning lints against their full model (Kernels/Names.v): zoo and generated name sets
+		{
+			seenN := map[string]bool{}
+			addN := func(c *x509.Certificate, what string) {
+				if term, tag, ok := nameCase(c); ok && !seenN[term] {
+					seenN[term] = true
+					out.Add("names", Case{Coq: term, Tag: tag, Desc: map[string]interface{}{"object": what, "cn": c.Subject.CommonName, "dns": c.DNSNames}})
+				}
+			}
+			for _, zc := range certZoo() {
+				switch zc.Class {
+				case "name", "related-names", "many-san", "tld", "extension", "ku-eku", "own-key":
+					addN(zc.Cert, zc.File)
+				}
+			}
+			labelPool := []string{"example", "com", "", "*", "a*", "*a", "w*w", "?", strings.Repeat("a", 63), strings.Repeat("b", 64), "a_b", "-a", "a-", "A", "xn--caf-dma", "a b", "a\x00b", "1", "co", "uk", " ", "é"}
+			nN := 400
+			if tier() == "thorough" {
+				nN = 6000
+			}
+			for i := 0; i < nN; i++ {
+				mk := func() string {
+					k := rng.Intn(5)
+					var ls []string
+					for j := 0; j < k; j++ {
+						ls = append(ls, pick(rng, labelPool))
+					}
+					s := strings.Join(ls, ".")
+					switch rng.Intn(8) {
+					case 0:
+						s = "*." + s
+					case 1:
+						s = "?." + s
+					case 2:
+						s = "*.?.?." + s
+					case 3:
+						s = strings.ToUpper(s)
+					}
+					return s
+				}
+				tmpl := leafTemplate()
+				tmpl.DNSNames = nil
+				var names []genName
+				for j := rng.Intn(4); j > 0; j-- {
+					names = append(names, genName{2, []byte(mk())})
+				}
+				if rng.Intn(5) == 0 && len(names) > 0 {
+					names = append(names, names[rng.Intn(len(names))])
+				}
+				switch rng.Intn(5) {
+				case 0:
+					tmpl.Subject.CommonName = ""
+				case 1:
+					tmpl.Subject.CommonName = pick(rng, []string{"10.0.0.1", "::1", "1.2.3", "2001:db8::1"})
+				case 2:
+					if len(names) > 0 {
+						tmpl.Subject.CommonName = string(names[0].value)
+					}
+				default:
+					tmpl.Subject.CommonName = mk()
+				}
+				if len(names) > 0 || rng.Intn(3) == 0 {
+					tmpl.ExtraExtensions = append(tmpl.ExtraExtensions, generalNamesExt(asn1SAN, names, false))
+				}
+				switch rng.Intn(6) {
+				case 0:
+					tmpl.IsCA, tmpl.KeyUsage, tmpl.ExtKeyUsage = true, stdx509.KeyUsageCertSign, nil
+				case 1:
+					tmpl.ExtKeyUsage = []stdx509.ExtKeyUsage{stdx509.ExtKeyUsageClientAuth}
+				}
+				if _, c, err := issue(tmpl, nil); err == nil {
+					addN(c, fmt.Sprintf("generated names %d", i))
 				}
 			}
 		}
